@@ -23,7 +23,8 @@ RULE = ("create_random_shuffles(k, seed): shape (4^k, 4), every row a permutatio
         "the RNG did before, unchanged module globals, no audit events. Induced map at a vertex with live-arc pattern P under a "
         "constant table row p: the first nucleotide encode emits for digit d is the live arc whose table entry is d-th smallest "
         "(a bijection digits -> live arcs), decode inverts it, and decode accepts exactly the same strings (all strings of length "
-        "<= 3) with and without the table. Non-trivial: |P| >= 2 and p is not the identity, or k >= 2 for tables; distinct = hash.")
+        "<= 3) with and without the table. Non-trivial: |P| >= 2 and p is not the identity, or k >= 2 for tables; distinct = hash."
+        " Also: the same seed requested again after the first table was scrambled in place (and at a smaller order), the caller's table compared before / after encode and decode, and the induced map re-checked after the live-arc pattern was changed in place on the same accessor and table objects.")
 
 
 def setup(ctx):
